@@ -2,6 +2,7 @@ package engine
 
 import (
 	"fmt"
+	"regexp"
 	"go/types"
 	"math"
 	"math/bits"
@@ -114,6 +115,7 @@ type modelEnv struct {
 	m      map[string]ModelVal
 	numSp  map[int64]string  // number id -> spelling
 	usedSp map[string]int64  // spelling -> id
+	synth  map[int64]string
 }
 
 func (e *modelEnv) bv(t *Term) uint64 {
@@ -160,7 +162,7 @@ func (e *modelEnv) strOf(v Value) string {
 		if str, ok := e.s.W.Job.strByID[id]; ok {
 			return str
 		}
-		return "§" + strconv.FormatInt(id, 10)
+		return e.synthStr(id)
 	case *SymStr:
 		b := make([]byte, len(x.B))
 		for i, c := range x.B {
@@ -174,6 +176,48 @@ func (e *modelEnv) strOf(v Value) string {
 		return string(b)
 	}
 	return fmt.Sprintf("<%T>", v)
+}
+
+// synthStr invents a string for an identity that is not an interned literal,
+// consistent with the regex predicates the model assigned to that identity.
+func (e *modelEnv) synthStr(id int64) string {
+	if s, ok := e.synth[id]; ok {
+		return s
+	}
+	type req struct {
+		re   *regexp.Regexp
+		want bool
+	}
+	var reqs []req
+	for _, a := range e.s.reApps {
+		if int64(e.bv(a.id)) == id {
+			reqs = append(reqs, req{a.re, e.m[a.t.str].B})
+		}
+	}
+	tag := "§" + strconv.FormatInt(id, 10)
+	cands := []string{tag, "x" + tag, tag + "x", "X" + tag, "0" + tag, " " + tag}
+	for _, r := range reqs {
+		cands = append(cands, r.re.String()+tag, tag+r.re.String())
+	}
+	out := tag
+	for _, c := range cands {
+		ok := true
+		for _, r := range reqs {
+			if r.re.MatchString(c) != r.want {
+				ok = false
+				break
+			}
+		}
+		if ok {
+			out = c
+			break
+		}
+	}
+	if e.synth == nil {
+		e.synth = map[int64]string{}
+	}
+	e.synth[id] = out
+	return out
 }
 
 func (e *modelEnv) numberOf(as *AbsStr) string {
@@ -446,6 +490,10 @@ func (w *Worker) buildFixture(st *State) *Fixture {
 	}
 	for _, ov := range st.outVals {
 		g.addValue(st, ov.v, 0)
+	}
+	for _, a := range st.reApps {
+		g.add(a.id)
+		g.add(a.t)
 	}
 	var model map[string]ModelVal
 	if len(st.pc) > 0 || len(st.violExtra) > 0 || len(g.want) > 0 {
